@@ -326,6 +326,17 @@ fn modify<ID: Eq + Hash, C: Conditions>(
     Ok(state)
 }
 
+/// Returns `true` if the actor is an active member of the group with `Manage` access.
+fn is_active_manager<ID: Eq + Hash, C: Conditions>(
+    state: &GroupMembersState<ID, C>,
+    actor: &ID,
+) -> bool {
+    state
+        .members
+        .get(actor)
+        .is_some_and(|actor_state| actor_state.is_member() && actor_state.is_manager())
+}
+
 /// Promote a group member to the given access level.
 ///
 /// No modification will occur if the promoted member already has `Manage` access. In that case, the
@@ -341,8 +352,13 @@ pub fn promote<ID: Eq + Hash, C: Conditions>(
     access: Access<C>,
 ) -> Result<GroupMembersState<ID, C>, GroupMembershipError<ID>> {
     if let Some(member) = state.members.get(&promoted) {
-        // No action is required if the member is already set to the highest access level.
-        let new_state = if member.is_manager() {
+        // No action is required if the member is already set to the highest access level. The
+        // promoter still needs to be authorised and the promoted member active, otherwise
+        // `modify` returns the respective error.
+        let new_state = if member.is_manager()
+            && member.is_member()
+            && is_active_manager(&state, &promoter)
+        {
             state
         } else {
             modify(state, promoter, promoted, access)?
@@ -369,8 +385,13 @@ pub fn demote<ID: Eq + Hash, C: Conditions>(
     access: Access<C>,
 ) -> Result<GroupMembersState<ID, C>, GroupMembershipError<ID>> {
     if let Some(member) = state.members.get(&demoted) {
-        // No action is required if the member is already set to the lowest access level.
-        let new_state = if member.is_puller() {
+        // No action is required if the member is already set to the lowest access level. The
+        // demoter still needs to be authorised and the demoted member active, otherwise `modify`
+        // returns the respective error.
+        let new_state = if member.is_puller()
+            && member.is_member()
+            && is_active_manager(&state, &demoter)
+        {
             state
         } else {
             modify(state, demoter, demoted, access)?
